@@ -183,6 +183,7 @@ extern "C" void proof_request_immediate() {
   bool first_compo = true;
   int c_probe = nd_u8(); VASSUME(c_probe < NC);       // ghost: any composite fork
   bool on_path = false; Prong path_prong = INVALID_PRONG;
+  bool settled = false;                               // an ancestor below already sits on the path with nothing else requested there
   for (int k = 0; k <= DEPTH + 1; ++k) {
     if (is_root(p)) break;
     if (p.forkId > 0) {
@@ -191,8 +192,17 @@ extern "C" void proof_request_immediate() {
       if (first_compo) VASSERT(C02, req == p.prong, "the destination's region targets the destination's branch");
       else {
         VASSERT(C02, r.compoRemains.get(c), "every composite ancestor above the destination's region is marked as remaining");
-        VASSERT(C02, req == p.prong || (req == INVALID_PRONG && old.compoActive[c] == p.prong),
-                "every ancestor region targets the branch towards the destination, unless that branch is active and nothing else is requested there");
+        if (!settled) {
+          // up to and including the first ancestor that is already on the path, the walk must (re-)target the path
+          VASSERT(C02, req == p.prong || (req == INVALID_PRONG && old.compoActive[c] == p.prong),
+                  "every ancestor region targets the branch towards the destination, unless that branch is active and nothing else is requested there");
+          if (old.compoActive[c] == p.prong && (old.compoRequested[c] == p.prong || old.compoRequested[c] == INVALID_PRONG)) settled = true;
+        } else {
+          // above it: the active configuration is on the path already (inv_active); only an EARLIER request of the same batch can point elsewhere
+          VASSERT(C02, req == old.compoRequested[c], "above the first ancestor that is already on the path, pending requests are left as they are");
+          VASSERT(C02, req == p.prong || req == INVALID_PRONG,
+                  "a later request overrides an earlier conflicting one at every ancestor region (also above an ancestor that is already on the path)");
+        }
       }
       if (c == c_probe) { on_path = true; path_prong = p.prong; }
       first_compo = false;
